@@ -357,8 +357,14 @@ func (m *Mux) encError(w http.ResponseWriter, r *http.Request, err error) {
 		p.Message = strings.ToValidUTF8(p.Message, "\uFFFD")
 	}
 	b, err := c.Marshal(p)
+	if err != nil && p != nil {
+		// Details the codec cannot encode (an Any of a type it cannot
+		// resolve): code and message still reach the client.
+		p.Details = nil
+		b, err = c.Marshal(p)
+	}
 	if err != nil {
-		panic(err) // ...
+		return // the status line has been sent
 	}
 	w.Write(b) //nolint
 }
